@@ -412,8 +412,72 @@ class Grid1D(Contract):
             yield 'canary:accepted', exc is None
 
 
+# ------------------------------------------------------------------------------------------------ lemma: monomials -> polynomials
+def lemma_moment_closure(tier, seed):
+    r"""What the evaluation checks decide per configuration are the MOMENT conditions sum_j c_j s_j^k = k! [k == d], k < n.  The
+    property speaks of all polynomials below the degree.  The step between the two, for n symbolic weights c_j, n symbolic
+    offsets s_j and n symbolic polynomial coefficients a_k (nothing concrete but n):
+      (ring)  sum_j c_j p(s_j)  ==  sum_k a_k M_k          with p(x) = sum_k a_k x^k,  M_k = sum_j c_j s_j^k     (polynomial identity)
+      (z3)    M_k == k! [k == d] for all k < n   ==>   sum_k a_k M_k == d! a_d  ( = p^(d)(0) )
+      (ring)  sum_k a_k M_k - d! a_d == sum_k a_k (M_k - k![k == d])                                              (the error, term by term)
+      (z3)    |a| <= B, |M - want| <= e ==> |a (M - want)| <= B e   (one product)   and   |r_k| <= t_k ==> |sum r_k| <= sum t_k   (linear)
+              together: moment residuals e_k bound the error on every polynomial with |a_k| <= B_k by sum_k B_k e_k  -- the float allowance
+    The matrix clauses (A p + b = p^(d) at every grid point) are row-wise instances with offsets measured from the row's point."""
+    import z3
+    from math import factorial as fac
+    from vc.discharge import Obligation, discharge
+
+    obs = []
+    nmax = 9 if tier == 'quick' else 13
+    for n in range(2, nmax + 1):
+        c = [z3.Real(f'c{j}') for j in range(n)]
+        s = [z3.Real(f's{j}') for j in range(n)]
+        a = [z3.Real(f'a{k}') for k in range(n)]
+
+        def pw(x, k):
+            r = z3.RealVal(1)
+            for _ in range(k):
+                r = r * x
+            return r
+
+        lhs = z3.Sum([c[j] * z3.Sum([a[k] * pw(s[j], k) for k in range(n)]) for j in range(n)])
+        rhs = z3.Sum([a[k] * z3.Sum([c[j] * pw(s[j], k) for j in range(n)]) for k in range(n)])
+        obs.append(Obligation(f'closure[n={n}]:stencil_applied_to_polynomial_is_sum_of_coefficient_times_moment', [], lhs == rhs, 'lemma'))
+        m = [z3.Real(f'M{k}') for k in range(n)]
+        for d in range(1, min(4, n - 1) + 1):
+            want = [z3.RealVal(fac(k) if k == d else 0) for k in range(n)]
+            comb = z3.Sum([a[k] * m[k] for k in range(n)])
+            obs.append(Obligation(f'closure[n={n},d={d}]:moments_imply_exact_derivative_of_every_polynomial_below_degree_n',
+                                  [m[k] == want[k] for k in range(n)], comb == fac(d) * a[d], 'lemma'))
+            obs.append(Obligation(f'closure[n={n},d={d}]:error_is_sum_of_coefficient_times_moment_residual', [],
+                                  comb - fac(d) * a[d] == z3.Sum([a[k] * (m[k] - want[k]) for k in range(n)]), 'lemma'))
+        # allowance version, modular: each term a_k (M_k - want_k) is bounded by the one-product lemma below, the sum of n bounded terms is linear
+        r = [z3.Real(f'r{k}') for k in range(n)]
+        t = [z3.Real(f't{k}') for k in range(n)]
+        pc = []
+        for k in range(n):
+            pc += [r[k] <= t[k], -r[k] <= t[k]]
+        obs.append(Obligation(f'closure[n={n}]:sum_of_bounded_terms_is_bounded_by_sum_of_bounds', pc, z3.And(z3.Sum(r) <= z3.Sum(t), -z3.Sum(r) <= z3.Sum(t)), 'lemma'))
+    x, y, B, e = z3.Reals('x y B e')
+    obs.append(Obligation('closure:one_term:|a|<=B,|M-want|<=e_imply_|a(M-want)|<=B*e', [x <= B, -x <= B, y <= e, -y <= e],
+                          z3.And(x * y <= B * e, -(x * y) <= B * e), 'lemma'))
+    # canary: the closure does NOT reach degree n (one more coefficient, no moment condition for it)
+    n = 3
+    a = [z3.Real(f'a{k}') for k in range(n + 1)]
+    m = [z3.Real(f'M{k}') for k in range(n + 1)]
+    can = discharge(Obligation('canary:closure_reaches_degree_n', [m[0] == 0, m[1] == 1, m[2] == 0], z3.Sum([a[k] * m[k] for k in range(n + 1)]) == a[1], 'lemma')).as_dict()
+    res = []
+    for ob in obs:
+        d = discharge(ob).as_dict()
+        d['path'] = 0
+        res.append(d)
+    can = dict(name=can['name'], refuted=can['status'] == 'refuted')
+    return dict(contract='lemma:moment_closure', prop='C18', inst={}, label='proved', kind='lemma', obligations=res, canaries=[can],
+                paths=1, status='ok')
+
+
 CONTRACTS = [Grid1D]
-EXTRAS = [check_get_steps, check_stencil, check_periodic_matrix, check_boundary_matrix, check_boundary_parameter_forms, check_boundary_user_offsets, check_kron]
+EXTRAS = [check_get_steps, check_stencil, check_periodic_matrix, check_boundary_matrix, check_boundary_parameter_forms, check_boundary_user_offsets, check_kron, lemma_moment_closure]
 ASSUMPTIONS = ['numpy.linalg.solve / scipy.sparse internals are outside the repository; their OUTPUT is what is checked (exact rational evaluation, allowance 1e-8 relative)',
-               'closure from monomials to all polynomials of the degree is by linearity (not machine-checked)']
+               'closure from monomials to all polynomials below the degree: machine-checked for n <= 9 points (quick) / 13 (thorough) by lemma:moment_closure (symbolic weights, offsets and coefficients), including the allowance version']
 UNDECIDED = ['grid sizes beyond the enumerated range', 'cupy path']
